@@ -906,3 +906,20 @@ let () = register "c09" (fun line ->
     report (Printf.sprintf "drain=ok established=%s new=%s " (if kept then "kept" else "BROKEN") (if refused then "refused" else "SERVED"))
       (lstep true s LStop)
   | _ -> "?")
+
+(* ---------------- C05: TCP relay ---------------- *)
+let fnv32 (l : coq_N list) : int =
+  L.fold_left (fun h b -> ((h lxor (int_of_n b)) * 16777619) land 0xFFFFFFFF) 2166136261 l
+
+let () = register "c05" (fun line ->
+  Scanf.sscanf line "%d %d %d %s %d %d" (fun seed nc nb order _ _ ->
+    let data n b2c = L.init n (fun i -> bytes_tab.((if b2c then i * 137 + seed * 29 + i / 256 + 7 else i * 131 + seed * 17 + i / 256) land 255)) in
+    (* the proxy's own read sizes are unknown: the theorem says they do not matter; use a spread of them *)
+    let rounds n = L.init (n / 3 + 4) (fun i -> Relay.RCopy (n_of_int (1 + (i * 7919 + seed) mod 20000))) in
+    let dir n b2c =
+      let d = data n b2c in
+      let half = L.filteri (fun i _ -> i < n / 2) d and rest = L.filteri (fun i _ -> i >= n / 2) d in
+      Relay.rrun (n_of_int 16384) ([Relay.RSend half; Relay.RCopy (n_of_int 5)] @ [Relay.RSend rest; Relay.RFinish] @ rounds n) in
+    let show (d : Relay.dir) = Printf.sprintf "%d:%08x eof=%d" (L.length d.Relay.delivered) (fnv32 d.Relay.delivered) (if d.Relay.eof_delivered then 1 else 0) in
+    ignore order;
+    Printf.sprintf "c2b=%s b2c=%s upstream=1/1/0" (show (dir nc false)) (show (dir nb true))))
